@@ -111,6 +111,25 @@ m("C20-b", "C20", "api/src/owner.rs", "\t\t\t\tlet tc = self.tor_config.lock().c
 m("C20-c", "C20", "controller/src/controller.rs", "\t\t\tlet mut shared_mask_ref = mask.lock();\n\t\t\t*shared_mask_ref = Some(sk);", "\t\t\tlet secp_inst = static_secp_instance();\n\t\t\tlet _secp = secp_inst.lock();\n\t\t\tlet mut shared_mask_ref = mask.lock();\n\t\t\t*shared_mask_ref = Some(sk);", "C20.R2")
 m("C20-d", "C20", "libwallet/src/api_impl/owner.rs", "pub fn check_ttl<'a, T: ?Sized, C, K>(w: &mut T, slate: &Slate) -> Result<(), Error>\nwhere\n\tT: WalletBackend<'a, C, K>,\n\tC: NodeClient + 'a,\n\tK: Keychain + 'a,\n{\n", "pub fn check_ttl<'a, T: ?Sized, C, K>(w: &mut T, slate: &Slate) -> Result<(), Error>\nwhere\n\tT: WalletBackend<'a, C, K>,\n\tC: NodeClient + 'a,\n\tK: Keychain + 'a,\n{\n\tlet secp_inst = crate::grin_util::static_secp_instance();\n\tlet _secp = secp_inst.lock();\n\tlet _ = crate::grin_util::static_secp_instance();\n", "C20.R2")
 
+# ---- second wave (subtler edits)
+m("C11-e", "C11", "libwallet/src/internal/tx.rs", "\t\tif orig_proof_info.receiver_address != p.receiver_address {", "\t\tif p.receiver_address != p.receiver_address {", "C11.R1")
+m("C11-f", "C11", "libwallet/src/internal/tx.rs", "\t\tif p.receiver_address.verify(&msg, &sig).is_err() {", "\t\tif p.sender_address.verify(&msg, &sig).is_err() {", "C11.R")
+m("C12-e", "C12", "libwallet/src/types.rs", "\t\t\tfalse => aggsig::create_secnonce(secp).unwrap(),", "\t\t\tfalse => sec_key.clone(),", "C12.R6")
+m("C05-e", "C05", "libwallet/src/internal/updater.rs", "\t\tTxLogEntryType::TxSent => tx.tx_type = TxLogEntryType::TxSentCancelled,\n\t\tTxLogEntryType::TxReceived | TxLogEntryType::TxReverted => {\n\t\t\ttx.tx_type = TxLogEntryType::TxReceivedCancelled\n\t\t}", "\t\tTxLogEntryType::TxSent | TxLogEntryType::TxReverted => tx.tx_type = TxLogEntryType::TxSentCancelled,\n\t\tTxLogEntryType::TxReceived => {\n\t\t\ttx.tx_type = TxLogEntryType::TxReceivedCancelled\n\t\t}", "C05.R3")
+m("C10-e", "C10", "libwallet/src/slatepack/armor.rs", "\tif error_code.iter().eq(new_check.iter()) {", "\tif error_code.iter().take(3).eq(new_check.iter().take(3)) {", "C10.R4")
+m("C14-d", "C14", "impls/src/backends/lmdb.rs", "\t\t\t\tif *self.master_checksum != Some(hasher.finalize()) {", "\t\t\t\tif self.master_checksum.is_some() && *self.master_checksum != Some(hasher.finalize()) {", "C14.R1")
+m("C18-d", "C18", "libwallet/src/internal/updater.rs", "\t\tif client.get_kernel(&excess, min_height, None)?.is_none() {", "\t\tif client.get_kernel(&excess, min_height, None).unwrap_or(None).is_none() {", "C18.R4")
+m("C19-d", "C19", "libwallet/src/internal/updater.rs", "\t\t\tRetrieveTxQuerySortOrder::Desc => return_txs.reverse(),", "\t\t\tRetrieveTxQuerySortOrder::Asc => return_txs.reverse(),", "C19.R")
+m("C06-d", "C06", "libwallet/src/internal/updater.rs", "\tbatch.save_tx_log_entry(tx, parent_key_id)?;\n\tbatch.commit()?;\n\tOk(())\n}\n\n/// Apply refreshed API output data to the wallet", "\tbatch.save_tx_log_entry(tx, parent_key_id)?;\n\tlet _ = batch.commit();\n\tOk(())\n}\n\n/// Apply refreshed API output data to the wallet", "C06.R3")
+m("C02-f", "C02", "libwallet/src/api_impl/foreign.rs", "\t\ttx::complete_tx(&mut *w, keychain_mask, &mut sl, &context)?;\n\t\ttx::verify_slate_payment_proof", "\t\tlet _ = tx::complete_tx(&mut *w, keychain_mask, &mut sl, &context);\n\t\ttx::verify_slate_payment_proof", "C02.R2")
+m("C03-d", "C03", "libwallet/src/internal/selection.rs", "batch.lock_output(&mut coin)?;", "coin.tx_log_entry = Some(log_id);\n\t\t\tbatch.save(coin)?;", "C03.R")
+m("C07-d", "C07", "libwallet/src/api_impl/foreign.rs", "\tcheck_ttl(w, &ret_slate)?;\n\tlet parent_key_id = match dest_acct_name {", "\tlet parent_key_id = match dest_acct_name {", "C07.R3")
+m("C13-d", "C13", "controller/src/controller.rs", "\t\t\tlet mut share_key_ref = key.lock();\n\t\t\t*share_key_ref = new_key;", "\t\t\tlet share_key_ref = key.lock();\n\t\t\tlet _ = (share_key_ref, new_key);", "C13.R4")
+m("C15-d", "C15", "libwallet/src/internal/selection.rs", "\t\t\tlet change_key = wallet.next_child(keychain_mask)?;", "\t\t\tlet change_key = match wallet.next_child(keychain_mask) {\n\t\t\t\tOk(k) => k,\n\t\t\t\tErr(_) => coins[0].key_id.clone(),\n\t\t\t};", "C15.R")
+m("C17-d", "C17", "libwallet/src/api_impl/owner.rs", "\tif slate.ttl_cutoff_height != 0 {\n\t\tif last_confirmed_height >= slate.ttl_cutoff_height {", "\tif slate.ttl_cutoff_height > 1 {\n\t\tif last_confirmed_height >= slate.ttl_cutoff_height {", "C17.R2")
+m("C04-e", "C04", "libwallet/src/internal/updater.rs", "\t\t\tif reverted_kernels.contains(&tx.id) && tx.parent_key_id == *parent_key_id {", "\t\t\tif reverted_kernels.contains(&tx.id) {", "C04.R1")
+m("C09-e", "C09", "libwallet/src/slatepack/types.rs", "\t\t\t.filter(|s| *s <= decrypted.len())\n", "\t\t\t.filter(|s| *s <= decrypted.len() + 4)\n", "C09.R1")
+
 
 def for_property(prop):
     return [x for x in M if x["property"] == prop]
